@@ -608,7 +608,79 @@ func runC16(c *Ctx) {
 		}
 		c.Check("C16.T1", "isSecp256k1:both-kty-and-crv", ok1 && ok2, is.Pos(), fmt.Sprintf("isSecp256k1 requires kty EC and crv secp256k1 (%v)", rets))
 	}
-	c.Min("C16.T1", 4)
+	// the wrapper's own key-type and curve labels are those of the JSON just read, on every accepting path of
+	// UnmarshalJSON (MarshalJSON picks the secp256k1 encoder by these labels: a label left over from an earlier value of
+	// a reused wrapper sends the key to the wrong encoder)
+	if uj := c.Method("jwsutil", "JWK", "UnmarshalJSON"); uj != nil {
+		c.Analysed(uj)
+		for _, fld := range []string{"Kty", "Crv"} {
+			cut := map[edge]bool{}
+			n := 0
+			forEachInstr(uj, func(in ssa.Instruction) {
+				st, ok := in.(*ssa.Store)
+				if !ok {
+					return
+				}
+				fa, isFA := st.Addr.(*ssa.FieldAddr)
+				if !isFA || c.Path(fa.X, nil) != "$0" || fieldName(fa.X.Type(), fa.Field) != fld {
+					return
+				}
+				// the stored label is the decoded one
+				ld, isLd := st.Val.(*ssa.UnOp)
+				if !isLd || ld.Op != token.MUL {
+					return
+				}
+				src, isSrc := ld.X.(*ssa.FieldAddr)
+				if !isSrc || fieldName(src.X.Type(), src.Field) != fld {
+					return
+				}
+				al, isAl := src.X.(*ssa.Alloc)
+				if !isAl {
+					return
+				}
+				fromInput := false
+				for _, r := range *al.Referrers() {
+					if mi, isMI := r.(*ssa.MakeInterface); isMI {
+						for _, rr := range *mi.Referrers() {
+							if cl, isC := rr.(*ssa.Call); isC && cl.Call.StaticCallee() != nil && strings.HasSuffix(cl.Call.StaticCallee().String(), "json.Unmarshal") && len(cl.Call.Args) == 2 && cl.Call.Args[1] == ssa.Value(mi) && c.Path(cl.Call.Args[0], nil) == "$1" {
+								fromInput = true
+							}
+						}
+					}
+				}
+				if !fromInput {
+					return
+				}
+				n++
+				for _, sc := range st.Block().Succs {
+					cut[edge{from: st.Block(), to: sc}] = true
+				}
+				if r, isR := st.Block().Instrs[len(st.Block().Instrs)-1].(*ssa.Return); isR {
+					_ = r // a return in the storing block is behind the store
+				}
+			})
+			skipped := ""
+			for b := range reach(uj.Blocks[0], cut) {
+				if r, isR := b.Instrs[len(b.Instrs)-1].(*ssa.Return); isR && maySucceed(r) {
+					stored := false
+					for _, in := range b.Instrs {
+						if st, isS := in.(*ssa.Store); isS {
+							if fa, isFA := st.Addr.(*ssa.FieldAddr); isFA && c.Path(fa.X, nil) == "$0" && fieldName(fa.X.Type(), fa.Field) == fld {
+								stored = true
+							}
+						}
+					}
+					if !stored {
+						skipped = c.pos(r.Pos())
+					}
+				}
+			}
+			c.Check("C16.T1", "UnmarshalJSON:label-"+fld+"-set-on-every-accepting-path", n > 0 && skipped == "", uj.Pos(), fmt.Sprintf("(*JWK).UnmarshalJSON stores the decoded %s into the wrapper before every accepting exit (%d store(s); accepting exit without it: %s)", fld, n, skipped))
+		}
+	} else {
+		c.Unresolved("C16.T1", "(*jwsutil.JWK).UnmarshalJSON")
+	}
+	c.Min("C16.T1", 6)
 	c.Assume("go-jose encodes NIST and Ed25519 keys at full width; btcec.S256 parameters")
 }
 
